@@ -127,7 +127,7 @@ func (o *cOp) String() string {
 	case "rmnode":
 		return fmt.Sprintf("RemoveNode(%s)->%v", o.ID, o.OK)
 	case "regnode":
-		return fmt.Sprintf("RegisterNode(%s)->%v", o.ID, o.OK)
+		return fmt.Sprintf("RegisterNode(%s,%s)->%v", o.ID, o.Policy, o.OK)
 	case "setthr", "setthrs":
 		return fmt.Sprintf("%s(%s,%d)->%v", o.Kind, o.Typ, o.Thr, o.OK)
 	case "getthr", "getthrs":
@@ -211,7 +211,11 @@ func execOp(ctx context.Context, b *el.Broker, o *cOp, sh *concShared) {
 		err := b.RemoveNode(ctx, el.NodeID(o.ID))
 		setRet(o, sh, err == nil, false, 0)
 	case "regnode":
-		err := b.RegisterNode(el.NodeID(o.ID), o.obj)
+		var opts []el.Option
+		if o.Policy == "deny" {
+			opts = append(opts, el.WithNodeRegistrationPolicy(el.DenyOverwrite))
+		}
+		err := b.RegisterNode(el.NodeID(o.ID), o.obj, opts...)
 		setRet(o, sh, err == nil, false, 0)
 	case "setthr":
 		err := b.SetSuccessThreshold(el.EventType(o.Typ), o.Thr)
@@ -404,11 +408,18 @@ func cmStep(st cmState, in interface{}) (bool, cmState) {
 			delete(n.nodes, o.ID)
 			return true, n
 		case "regnode":
+			// (a node registered with DenyOverwrite carries the mark in its model label)
+			if cur, ok := st.nodes[o.ID]; ok && strings.HasSuffix(cur, "|deny") {
+				return !o.OK, st // sticky: every later registration under the id fails
+			}
 			if !o.OK {
 				return false, st
 			}
 			n := st.clone()
 			n.nodes[o.ID] = o.obj.label
+			if o.Policy == "deny" {
+				n.nodes[o.ID] += "|deny"
+			}
 			return true, n
 		case "setthr":
 			if !o.OK {
@@ -576,6 +587,9 @@ func runConc(rc *RunCtx, prop string) {
 			id := pool[tp.Choose(len(pool), "id")]
 			objSeq++
 			o := &cOp{Kind: "regnode", ID: id}
+			if tp.Choose(4, "node-deny") == 0 {
+				o.Policy = "deny"
+			}
 			o.obj = &markNode{label: fmt.Sprintf("%s'%d", id, objSeq), kind: kinds[id], sh: sh}
 			return one(o)
 		case 5:
